@@ -28,6 +28,11 @@ STRENGTHENED = [
  ("C12r2-C", "first pass tries the queen promotion first through `remove_move`, which removes all four promotions (F12), so a knight-promotion mate is not searched", "no family had a mate that only an under-promotion delivers", "new reference-selected families: promotion-only mates and knight-under-promotion mates where the queen promotion does not mate"),
  ("C15r2-B", "`Board::eq` compares cached pin/checker sets + the parser clears pins in double check (two cooperating edits)", "needs a set_board position that is a double check with a pinned piece, repeated through a cycle", "two scenario roots added (double check with a pinned rook, and one ply before it); C15 plays up to 8 four-ply cycles through every catalogue root three times"),
  ("C15r2-C", "the plugin applies its own last suggestion unchecked, and set_board does not forget it", "suggestions were never submitted back", "`SubmitSuggestion` operation: the proposal is submitted at once, after other moves, and after a set_board to another position"),
+ ("C04r2-A", "`==` ignores an en-passant marker no pawn can use, the hash still includes it", "every comparison paired a board with its own rebuilt twin; boards the reference considers DIFFERENT were never tested for `==`", "C04 parses the neighbours of every state (marker removed, each right removed) and requires equal hashes whenever the implementation calls them equal"),
+ ("C04r2-B", "rejected `place` corrupts the builder's hash", "C04 did not use the builder", "the builder call sequences of C05 are also run under C04 (hash classes only)"),
+ ("C17r2-A", "`count()`/`nth()` overrides of the book iterator reach a subtree that `next()` never yields, plus an illegal move planted there", "the walk used `for`/`next()` only; the CLI picks moves with `count()` + `nth(k)`", "every node's `count()` and `nth(k)` for every k must describe the same list as iteration"),
+ ("C18r2-A / C18r2-B", "`collect` stops after 64 items / `nth(n)` truncates n to 32 bits", "collections had at most 64 distinct squares; skip counts above 128 were only usize::MAX-ish", "collections of 70+ squares with repeats; ~70 skip counts around every power of two up to 2^63"),
+ ("C19r2-A / C19r2-B", "`Rank::all().nth(n)` reduces n mod 256 / the move parser accepts any number of dashes", "skip counts were <= len+1 or usize::MAX; quick enumerated move strings up to 5 bytes", "skip counts around 2^8..2^63; move strings assembled from square tokens, separator runs of up to ten dashes and tails"),
  ("C01r2-C", "ep legality computed once with all capturers removed", "needs two capturers plus a pin / rank geometry; the quick `Ep` family had one capturer", "`Ep` level 0 now includes the two-capturer members"),
 ]
 
@@ -42,7 +47,9 @@ def main():
 "property; round 2 (`Cxxr2-A/B/C`) asked for three *hard-to-find* ones (multi-step histories, rare geometry, extreme",
 "values, interacting features) for the twelve behaviour-heavy properties. None of these changes is ever committed to",
 "/repo; `tools/try_patch.sh <patch> <tier> <ID...>` applies one, runs checks and always reverts; `tools/vet_seeded.sh`",
-"is the whole confirmation procedure. The table shows the state after the strengthening listed below it.","",
+"is the whole confirmation procedure. The table shows the state after the strengthening listed below it. (For the",
+"last batch - C04r2, C08r2, C09r2, C14r2, C16r2, C17r2, C18r2, C19r2 - the strengthening was done after reading",
+"the authors' descriptions and before the first run, so 'why missed' there is my analysis of the earlier version.)","",
 f"{len(rows)} changes kept; {sum(1 for m in rows if any(v['caught'] for v in m['checks_run']['results'].values()))} are caught by the quick check of the property they were written against; the exceptions are listed under 'Not caught'.","",
 "| change | breaks | caught by (quick tier) | divergence classes reported |","|---|---|---|---|"]
     for m in rows:
